@@ -217,7 +217,8 @@ PROPS = {
                                   "C01_compile_correct_f1", "C01_compile_correct_f2", "C01_compile_correct_f3", "C01_compile_correct_f4", "C01_compile_correct_f5",
                                   "C01_compile_correct_f6r", "C01_compile_correct_f6_partial", "C01_compile_correct_f8", "C01_fragments_well_scoped",
                                   "C01_f9_well_scoped", "C01_f9_reference_meaning", "C01_f9_compile_shape_code", "C01_f9_compile_labels",
-                                  "C01_compile_correct_f9", "C01_f9_call_keeps_caller_stack"]},
+                                  "C01_compile_correct_f9", "C01_f9_call_keeps_caller_stack",
+                                  "C01_compile_correct_f10", "C01_f10_well_scoped", "C01_f10_call_keeps_caller_stack", "C01_f10_no_return_is_nil"]},
         n_quick=240, n_thorough=3000,
         gen_timeout=3000,
         gates=["ok", "globals>16", "shadowing_loop_variable", "return_in_loop", "nested_loops", "call.fn_argument", "dyncall.variable",
